@@ -13,7 +13,7 @@ import numpy as np
 
 from harness import common
 
-MODULES = ['CirqVerif.Props.C18', 'CirqVerif.Props.C18Views']
+MODULES = ['CirqVerif.Props.C18', 'CirqVerif.Props.C18Views', 'CirqVerif.Props.C10']
 
 
 def _exc(fn):
@@ -251,7 +251,114 @@ def res_single(cirq, nprecs, k):
 
 
 def check_sampler(ctx, cirq):
-    pass
+    """a sampler's convenience entry points return the results of the same underlying runs in the documented order and shapes.
+    The order of parameter assignments is taken from the Lean sweep model (C10_len_eq_tuples / product order)."""
+    import duet
+    import pandas as pd
+    import sympy
+
+    from harness.props.c10 import SweepGen, unrat
+
+    rng = ctx.substream('sampler')
+    qs = cirq.LineQubit.range(3)
+
+    class CountingSampler(cirq.Sampler):
+        """records every primitive call; results are a deterministic function of (circuit tag, assignment, repetition)"""
+
+        def __init__(self):
+            self.calls = []
+
+        def run_sweep(self, program, params, repetitions=1):
+            resolvers = list(cirq.to_resolvers(params))
+            self.calls.append((program.tags[0] if program.tags else None, [sorted((str(k), float(v)) for k, v in r.param_dict.items()) for r in resolvers], repetitions))
+            out = []
+            for r in resolvers:
+                seed = hash((program.tags[0] if program.tags else 0, tuple(sorted((str(k), float(v)) for k, v in r.param_dict.items())))) % (2**31)
+                rs = np.random.RandomState(seed)
+                recs = {'m': rs.randint(0, 2, size=(repetitions, 1, 2)).astype(np.uint8), 'z': rs.randint(0, 2, size=(repetitions, 1, 3)).astype(np.uint8)}
+                out.append(cirq.ResultDict(params=r, records=recs))
+            return out
+
+    def expected(sampler_cls, program, resolver_dicts, reps):
+        s = sampler_cls()
+        return s.run_sweep(program, [cirq.ParamResolver(d) for d in resolver_dicts], reps)
+
+    n = 25 if ctx.tier == 'quick' else 200
+    reqs, meta = [], []
+    for i in range(n):
+        g = SweepGen(cirq, rng)
+        # sweeps over 1..3 keys whose textual order is not alphabetical on purpose
+        names = rng.sample(['t', 's', 'a', 'zz', 'b'], rng.randint(1, 3))
+        parts, leans = [], []
+        for nm in names:
+            vals = [float(rng.randrange(4)) for _ in range(rng.randint(1, 3))]
+            parts.append(cirq.Points(nm, vals))
+            leans.append({'k': 'points', 'key': nm, 'vals': [[int(v), 1] for v in vals]})
+        kind = rng.choice(['product', 'zip'])
+        sweep = (cirq.Product if kind == 'product' else cirq.Zip)(*parts)
+        lean = leans[0]
+        for l in leans[1:]:
+            lean = {'k': kind, 'a': lean, 'b': l}
+        reqs.append({'p': 'C10', 'op': 'sweep', 'sweep': lean, 'indices': [], 'slices': []})
+        meta.append((sweep, names, rng.choice([1, 2, 3])))
+    outs = ctx.driver.ask(reqs)
+    for (sweep, names, reps), out in zip(meta, outs):
+        circuit = cirq.Circuit(cirq.X(qs[0]) ** sympy.Symbol(names[0]), cirq.measure(qs[0], qs[1], key='m'), cirq.measure(*qs, key='z'), tags=['c1'])
+        assignments = [{k: unrat(v) for k, v in tup} for tup in out['tuples']]
+        ref = expected(CountingSampler, circuit, assignments, reps)
+        ctx.count('view', 'sampler')
+        ctx.case(['sampler', repr(sweep), reps], len(assignments) >= 2 and len(names) >= 2)
+
+        def same_results(a, b):
+            return len(a) == len(b) and all(x == y for x, y in zip(a, b))
+
+        problems = []
+        s1 = CountingSampler()
+        if not same_results(s1.run_sweep(circuit, sweep, reps), ref):
+            problems.append('run_sweep')
+        s2 = CountingSampler()
+        r0 = s2.run(circuit, cirq.ParamResolver(assignments[0]) if assignments else None, reps) if assignments else None
+        if assignments and r0 != ref[0]:
+            problems.append('run')
+        s3 = CountingSampler()
+        if not same_results(duet.run(s3.run_sweep_async, circuit, sweep, reps), ref):
+            problems.append('run_sweep_async')
+        if assignments:
+            s4 = CountingSampler()
+            if duet.run(s4.run_async, circuit, cirq.ParamResolver(assignments[0]), reps) != ref[0]:
+                problems.append('run_async')
+        # sample(): one block of `reps` rows per assignment, in sweep order; parameter columns hold that assignment's values
+        s5 = CountingSampler()
+        df = s5.sample(circuit, repetitions=reps, params=sweep)
+        keys = sorted(names)
+        rows = []
+        for asg, res in zip(assignments, ref):
+            for rep in range(reps):
+                row = {k: asg[k] for k in keys}
+                row['m'] = int(cirq.big_endian_bits_to_int(res.records['m'][rep, 0]))
+                row['z'] = int(cirq.big_endian_bits_to_int(res.records['z'][rep, 0]))
+                rows.append((rep, row))
+        got_rows = [(int(idx), {c: (float(v) if c in keys else int(v)) for c, v in r.items()}) for idx, r in zip(df.index, df.to_dict('records'))] if len(df) else []
+        if got_rows != [(i, {c: (float(v) if c in keys else int(v)) for c, v in r.items()}) for i, r in rows] or (len(df) and list(df.columns) != keys + ['m', 'z']):
+            problems.append('sample')
+        # run_batch: results per program in order, per sweep in order
+        circuit2 = cirq.Circuit(cirq.measure(qs[0], qs[1], key='m'), cirq.measure(*qs, key='z'), tags=['c2'])
+        s6 = CountingSampler()
+        reps_list = [reps, reps + 1]
+        batch = s6.run_batch([circuit, circuit2], params_list=[sweep, None], repetitions=reps_list)
+        ref2 = expected(CountingSampler, circuit2, [{}], reps + 1)
+        if len(batch) != 2 or not same_results(batch[0], ref) or not same_results(batch[1], ref2):
+            problems.append('run_batch')
+        s7 = CountingSampler()
+        batch_a = duet.run(s7.run_batch_async, [circuit, circuit2], [sweep, None], reps_list)
+        if len(batch_a) != 2 or not same_results(batch_a[0], ref) or not same_results(batch_a[1], ref2):
+            problems.append('run_batch_async')
+        for pname in problems:
+            ctx.report_witness(f'sampler:{pname}', f'Sampler.{pname} does not return the results of the underlying run_sweep calls in the documented order / shape / columns',
+                               {'lines': [{'sweep': repr(sweep), 'repetitions': reps}], 'impl_out': [pname], 'spec_out': ['run_sweep results in sweep order'],
+                                'theorem_or_correspondence': 'sampler entry points (T2) + C10 sweep order'})
+
+
 
 
 def replay(ctx: common.Run, rep: dict) -> int:
